@@ -88,7 +88,18 @@ where
                 None => Err(OperationError::BacklinkMissing),
             }
         } else {
-            Ok(())
+            // A prune flag lifts the requirement of a known backlink, but the log still needs to
+            // grow strictly: an operation at or below the latest known sequence number is
+            // outdated (it was superseded by a later prune point) and must not be stored again.
+            match past_header {
+                Some(past_header) if past_header.seq_num >= header.seq_num => {
+                    Err(OperationError::SeqNumNonIncremental(
+                        past_header.seq_num.saturating_add(1),
+                        header.seq_num,
+                    ))
+                }
+                _ => Ok(()),
+            }
         }
     } else {
         // Operation is at the beginning of log but we've already progressed and assume a strictly
